@@ -6,8 +6,11 @@ from checks.evalcheck import run_family
 
 def run(ctx):
     run_family(ctx, "c05", 16000)
+    # random deeper programs over every operator, builtin and value kind, recorded from the real evaluator and validated by Trace_Expr
+    tr = ctx.record("prog-random", "expr", ["-mode", "prog", "-n", 30000 if ctx.thorough else 2000, "-seed", ctx.seed * 100 + 5])
+    ctx.validate("prog-random-validate", "trace/Trace_Expr.tla", "trace/Trace_Expr.cfg", tr, "expr", shards=14 if ctx.thorough else 2)
     return ctx.finish(
         rule="all ordered pairs of value spellings x {< > <= >= == != === !==} evaluated by the real evaluator; compared: the "
-             "boolean result; non-trivial = pairs the property pins (number x number, string x string, === on null/bool/number/string, "
+             "boolean result; plus seeded random programs (depth <= 4, all operators / builtins / value kinds) validated by the trace specification; non-trivial = pairs the property pins (number x number, string x string, === on null/bool/number/string, "
              "== on same kinds)",
         assumptions=["< > <= >= across kinds and == across kinds are unpinned"])
